@@ -188,6 +188,51 @@ def _gen_once(rng, max_heavy, p_arom, p_ring, charged, hetero, triple, lowest_va
     return g
 
 
+LOWER_EXO = {
+    # name: (ring size, exocyclic =O on these ring atoms, ring double bonds (i, i+1), ring nitrogens (N-H))
+    '2-pyridone': (6, [0], [(1, 2), (3, 4)], [5]),
+    '4-pyridone': (6, [0], [(1, 2), (4, 5)], [3]),
+    'p-benzoquinone': (6, [0, 3], [(1, 2), (4, 5)], []),
+    'tropone': (7, [0], [(1, 2), (3, 4), (5, 6)], []),
+    'uracil': (6, [0, 4], [(1, 2)], [3, 5]),
+}
+
+
+def gen_lower_exo_molecule(rng):
+    """pyridone / quinone / tropone / uracil skeletons: rings that SMILES tools write in lower case although they carry an
+    exocyclic double bond (O=c1cccc[nH]1).  Ground truth is the (unique) Kekule structure; ring atoms and ring bonds are
+    flagged 'lower' so that the renderer writes them in lower case with the exocyclic '=O' spelled out.  Ring carbons
+    and nitrogens carry short saturated substituents, which is where (together with the C=O bonds) cuts can go."""
+    name = rng.choice(sorted(LOWER_EXO))
+    size, exo, dbl, nitro = LOWER_EXO[name]
+    g = nx.Graph()
+    for i in range(size):
+        el = 'N' if i in nitro else 'C'
+        g.add_node(i, element=el, charge=0, aromatic=False, cap=VAL[(el, 0)][0], ring=0, lower=True)
+    for i in range(size):
+        j = (i + 1) % size
+        g.add_edge(i, j, order=2 if (i, j) in dbl or (j, i) in dbl else 1, lower=True)
+
+    def add(el, parent, order=1):
+        n = len(g)
+        g.add_node(n, element=el, charge=0, aromatic=False, cap=VAL[(el, 0)][0], ring=None)
+        g.add_edge(parent, n, order=order)
+        return n
+    for i in exo:
+        add('O', i, order=2)
+    free_ring = [i for i in range(size) if free(g, i) >= 1]
+    rng.shuffle(free_ring)
+    for i in free_ring[:rng.randint(1, 3)]:
+        prev = add('C', i)
+        for _ in range(rng.randint(0, 2)):
+            prev = add(rng.choice(['C', 'C', 'O', 'N']), prev)
+    for n in g:
+        d = g.nodes[n]
+        d['hcount'] = hcount_for(d['element'], d['charge'], used(g, n))
+    g.graph['skeleton'] = name
+    return g
+
+
 def truth_graph(g):
     """heavy-atom ground truth: element, charge, nh on nodes; order on edges"""
     t = nx.Graph()
